@@ -1,4 +1,4 @@
 From Coq Require Import Extraction ExtrOcamlBasic.
 From OV Require Import Common.Base C18.Model.
 Extraction Language OCaml.
-Extraction "C18_model.ml" step step_ver step_res resolve init_world init_world_pre_97a5489 safe_entry join_slash repaired pre_31f4cb6 pre_88f69f7 pre_b6afef3.
+Extraction "C18_model.ml" plan_ok step step_ver step_res resolve init_world init_world_pre_97a5489 safe_entry join_slash repaired pre_31f4cb6 pre_88f69f7 pre_b6afef3.
